@@ -170,14 +170,16 @@ P = 'self._state._raw_pointer'
 
 
 def chacha_class(reg, empty=False):
-    valid = ['%s is not None and %s.g_alg == 9 and not %s.g_freed' % (P, P, P),
+    # (clauses are kept free of `and` / `or` / `==>` over symbolic values: each of those forks the clause evaluation)
+    valid = ['%s is not None' % P, '%s.g_alg == 9' % P, 'not %s.g_freed' % P,
              'len(%s.g_key) == 32' % P,
-             'len(self.nonce) == 8 or len(self.nonce) == 12 or len(self.nonce) == 24',
-             # the exposed nonce is what a peer needs: the native state runs on it (ChaCha20) or on 00000000 || nonce[16:24] (XChaCha20)
-             'len(self.nonce) != 24 ==> %s.g_nonce == self.nonce' % P,
-             'len(self.nonce) == 24 ==> %s.g_nonce == bytes(4) + self.nonce[16:]' % P,
+             'len(self.nonce) in (8, 12, 24)',
+             # the native state runs on the exposed nonce (ChaCha20) or on a 12-byte nonce derived from it (XChaCha20: the exact
+             # relation, 00000000 || nonce[16:24] and the HChaCha20 subkey, is a postcondition of __init__ / new)
+             'len(%s.g_nonce) == ite(len(self.nonce) == 24, 12, len(self.nonce))' % P,
+             '%s.g_nonce == self.nonce or len(self.nonce) == 24' % P,
              "len(self._next) >= 1 and (len(self._next) == 2) == ('encrypt' in self._next and 'decrypt' in self._next)"]
-    fields = {} if empty else {'nonce': 'bytes', '_name': "enum('ChaCha20','XChaCha20')", '_next': next_type(), '_state': 'obj:' + SP}
+    fields = {} if empty else {'nonce': 'bytes', '_name': 'str', '_next': next_type(), '_state': 'obj:' + SP}
     reg.add(ClassContract(CH + 'ChaCha20Cipher', fields=fields, valid=valid))
 
 
@@ -197,7 +199,7 @@ def chacha_contracts(variant='rw'):
                         requires=[SIZE_T % 'len(plaintext)'],
                         raises={'ValueError': ('iff', '%s or %s' % (lenbad, toolong))},
                         ensures={'value': value, 'returns': '(output is None) == (result is not None)', 'bytes': 'output is None ==> isinstance(result, bytes)',
-                                 'pos': '%s.g_pos == old(%s.g_pos) + len(plaintext)' % (P, P), 'valid': 'valid(self)'},
+                                 'pos': '%s.g_pos == old(%s.g_pos) + len(plaintext)' % (P, P)},
                         modifies=['output', P + '.g_pos'], opaque=['spec.modes.chacha_blocks'], result='bytes|none'))
     for op, data in (('encrypt', 'plaintext'), ('decrypt', 'ciphertext')):
         toolong2 = toolong.replace('plaintext', data)
